@@ -893,11 +893,108 @@ def gen_dirlist_boundary_lines():
     return L
 
 
+# ---------------------------------------------------------------- width of the size / count arithmetic (seeded C05-c2)
+# Announced counts for which a product that the C text computes in size_t no longer fits 32 bits, with small low bits so that
+# the truncated value is a plausible small table: 2^28 +- 1 (x16 = 2^32 +- 16), 2^29, 2^29 + 1, 2^31 +- 1, 2^32 - k.
+WIDTH_COUNTS = [2 ** 28 - 1, 2 ** 28, 2 ** 28 + 1, 2 ** 29, 2 ** 29 + 1, 2 ** 31 - 1, 2 ** 31 + 1, 0xF0000001, 0xFFFFFFFF]
+
+
+def width_xattr_image(count):
+    """pad | key-value block (user.a = "xy") | one block of 4 descriptors | xattr id table header announcing `count` descriptors |
+    locations: the first one honest, zeroes behind.  Returns (bytes stored, xattr_id_table_start, blocks the count needs,
+    blocks a 32 bit product gives)"""
+    pad = 96
+    blk = mblock(struct.pack("<HH", 0, 1) + b"a" + struct.pack("<I", 2) + b"xy")
+    desc = mblock(struct.pack("<QII", 0, 1, 0) * 4)
+    idloc = pad + len(blk)
+    xat = idloc + len(desc)
+    head = bytes(pad) + blk + desc + struct.pack("<QII", pad, count, 0) + struct.pack("<Q", idloc)
+    return head, xat, (count * 16 + 8191) // 8192, ((count * 16) % 2 ** 32 + 8191) // 8192
+
+
+def width_frag_image(count, honest):
+    """pad | one block holding one fragment entry | locations (fragment_table_start): the first one honest (or 0), zeroes behind"""
+    pad = 96
+    blk = mblock(struct.pack("<QII", 96, 1 << 24 | 100, 0))
+    fts = pad + len(blk)
+    head = bytes(pad) + blk + struct.pack("<Q", pad if honest else 0)
+    return head, fts, (count * 16 + 8191) // 8192, ((count * 16) % 2 ** 32 + 8191) // 8192
+
+
+def gen_width_boundary_lines(counts=None, full_from=0):
+    """Deterministic.  Every allocation size / block count of the table loaders at the counts where a 32 bit (id table: 16 bit)
+    product differs from the size_t one.  The location arrays are really there (`imgz`: zeroes behind the stored bytes), so the
+    loaders get as far as the honest code gets; `valloc 1` lets the harness grant the requests no allocator would; `allocs`
+    compares what was asked for.  Then the index bound: lookups below / at the announced count and just beyond the table a
+    truncated product would have allocated."""
+    L = ["valloc 1"]
+    counts = WIDTH_COUNTS if counts is None else counts
+    # --- sqfs_xattr_reader_load / get_desc
+    for count in counts:
+        head, xat, n, n32 = width_xattr_image(count)
+        variants = [("full", xat + 16 + 8 * n)] if count < 2 ** 31 or count == 0xF0000001 else []
+        if n32 < n:
+            variants.append(("short", xat + 16 + 8 * max(n32, 1)))       # the file ends where a truncated location array would end
+        for kind, size in variants:
+            L += ["imgz %d %s" % (size, hx(head)), sb_line(bytes_used=size, idt=96, xat=xat), "xnew", "xload", "allocs"]
+            idxs = [0, 3, 4, 511, 512, 512 * n32, 512 * n32 + 1, count - 1, count]
+            idxs += [i for i in (2 ** 28, 2 ** 28 + 1, 2 ** 28 + 4, 2 ** 31, 2 ** 31 + 3) if i < count]
+            L += ["xdesc %d" % i for i in sorted(set(i for i in idxs if 0 <= i < 2 ** 32))]
+            L += ["xall %d" % i for i in (1, 512 * n32, count - 1)]
+    # --- sqfs_frag_table_read -> sqfs_read_table
+    for count in counts:
+        for honest in (True, False):
+            head, fts, n, n32 = width_frag_image(count, honest)
+            variants = [("full", n)] if count < 2 ** 31 or (count == 2 ** 31 + 1 and honest) else []
+            if n32 < n and honest:
+                variants.append(("short", max(n32, 1)))
+            for kind, nloc in variants:
+                idt = fts + 8 * nloc
+                L += ["imgz %d %s" % (idt + 8, hx(head)), sb_line(frag_count=count, bytes_used=idt + 8, idt=idt, dts=96, fts=fts), "fragtable", "allocs"]
+                L += ["fragidx %d" % i for i in (0, 1, count - 1, count & 0xFFFFFFFF)]
+    # --- sqfs_id_table_read: the count is 16 bit, the product fits 32 bits for every count; the narrower type here is 16 bits
+    import random as _r
+    for count in (16383, 16384, 16385, 32769, 65535):
+        raw = b"".join(struct.pack("<I", 1000 + i) for i in range(count))
+        img, lower, start, locs = table_image(_r.Random(2), raw)
+        img += bytes(16)
+        L += ["img " + hx(img), sb_line(id_count=count, bytes_used=len(img), idt=start, dts=lower), "idtable", "allocs"]
+        L += ["idx %d" % i for i in (0, (count * 4 % 65536) // 4, count - 1, count)]
+    # --- read_inode_file_ext: block count / byte count of the block list beyond 32 bits; the words a truncated count asks for are there
+    base = struct.pack("<HHHHII", 9, 0o644, 0, 0, 5, 7)
+    for bs in (4096, 1 << 20):
+        for cnt in (2 ** 30 - 1, 2 ** 30, 2 ** 30 + 1, 2 ** 30 + 2, 2 ** 31 + 1, 2 ** 32 - 1, 2 ** 32, 2 ** 32 + 1, 2 ** 32 + 3):
+            if cnt * bs >= 2 ** 64:
+                continue
+            for nw in sorted({x for x in (cnt % 2 ** 32, (cnt * 4 % 2 ** 32) // 4) if x <= 8} or {0}):
+                L.append("inode %d %s" % (bs, hx(base + struct.pack("<QQQIIII", 0, cnt * bs, 0, 1, 0xFFFFFFFF, 0, 0xFFFFFFFF) + struct.pack("<I", 1 << 24 | 4096) * nw)))
+                L.append("allocs")
+    # --- read_inode_dir_ext: sizeof(ent) + ent.size + 1 beyond 32 bits, enough bytes behind the entry to leave a 128 byte index
+    for sz in (0xFFFFFFF2, 0xFFFFFFF3, 0xFFFFFFF4, 0xFFFFFFFE, 0xFFFFFFFF):
+        blob = struct.pack("<HHHHII", 8, 0o755, 0, 0, 5, 1) + struct.pack("<IIIIHHI", 2, 3, 0, 0, 1, 0, 0xFFFFFFFF) + struct.pack("<III", 0, 0, sz) + det_bytes(300)
+        L.append("inode 4096 " + hx(blob))
+    # --- sqfs_inode_unpack_dir_index_entry: size + 1 beyond 32 bits
+    for sz, used in ((0xFFFFFFFF, 16), (0xFFFFFFFE, 16), (0xFFFFFFFF, 13)):
+        L.append("unpack %d 0 %s" % (used, hx(struct.pack("<III", 7, 9, sz) + det_bytes(4))))
+    L.append("valloc 0")
+    # --- sqfs_xattr_reader_read_value: sizeof(*out) + 1 + value.size beyond 32 bits (the allocator of the sanitizer refuses the honest request)
+    for vsz in (0xFFFFFFFA, 0xFFFFFFFB, 0xFFFFFFFC, 0xFFFFFFFF):
+        kv = struct.pack("<HH", 0, 1) + b"a" + struct.pack("<I", vsz) + det_bytes(64)
+        blk = mblock(kv)
+        idblk = mblock(struct.pack("<QII", 0, 1, 0))
+        idloc = 96 + len(blk)
+        xat = idloc + len(idblk)
+        img = bytes(96) + blk + idblk + struct.pack("<QII", 96, 1, 0) + struct.pack("<Q", idloc)
+        L += ["img " + hx(img), sb_line(bytes_used=len(img), idt=96, xat=xat), "xnew", "xload", "xseek 0", "xkey", "xval 0"]
+    return L
+
+
 def boundary_groups():
     return [("inode-boundary", gen_inode_boundary_lines()), ("inode-misc-boundary", gen_inode_misc_boundary_lines()),
             ("meta-boundary", gen_meta_boundary_group()), ("data-boundary", gen_data_boundary_lines()),
             ("super-boundary", gen_super_boundary_lines()), ("table-boundary", gen_table_boundary_lines()),
-            ("xattr-boundary", gen_xattr_boundary_group()), ("dirlist-boundary", gen_dirlist_boundary_lines())]
+            ("xattr-boundary", gen_xattr_boundary_group()), ("dirlist-boundary", gen_dirlist_boundary_lines()),
+            ("width-boundary", gen_width_boundary_lines())]
 
 
 def run_harness(ctx, exe, lines):
@@ -923,13 +1020,15 @@ def run_harness(ctx, exe, lines):
             break
         out[i + done] = ("CRASH", rc, err[-3000:])
         # state lines that must be replayed: last img, and the reader is gone (next group starts with its own mr)
-        last_img, last_sb = None, None
+        last_img, last_sb, last_va = None, None, None
         for l in lines[:i + done + 1]:
-            if l.startswith("img "):
+            if l.startswith(("img ", "imgz ")):
                 last_img, last_sb = l, None
             elif l.startswith("sb "):
                 last_sb = l
-        ctxlines = [x for x in (last_img, last_sb) if x]
+            elif l.startswith("valloc "):
+                last_va = l
+        ctxlines = [x for x in (last_va, last_img, last_sb) if x]
         i = i + done + 1
     return out
 
@@ -1101,6 +1200,8 @@ def routine_level(ctx, harness, stats):
                               "real code aborted (rc=%s) in %s on routine-level line %r; the model of the current code predicts no out-of-bounds access" % (rc, site, l[:200]), replay)
             if op in ("seek", "read"):
                 poisoned.add(owner[i])
+            if op in XOPS or op == "xload":
+                xpoisoned = True                   # the restarted harness has no xattr reader until the next `xnew`
             continue
         if got is None:
             continue
@@ -1764,6 +1865,72 @@ def codec_tamper_images(ctx, codec, comp_ids, stats):
     return out
 
 
+def width_images(ctx, stats):
+    """Tool level counterpart of the width-boundary lines (seeded C05-c2): a valid forged image whose xattr id table header /
+    superblock announces 2^28 + 1 ... descriptors / fragments (x16 no longer fits 32 bits, the low bits say "one block"), and
+    whose inodes carry an xattr / fragment index below the announced count but beyond the table a truncated product would
+    allocate.  `compact`: the file ends where it ended (the honest loader fails reading the locations); `sparse`: the location
+    array the count needs is there as zeroes (the honest loader succeeds, the lookup is refused by the meta data reader).
+    Also a file inode whose size needs 2^32 + 1 / 2^30 + 1 block words."""
+    out = []
+    fg = F.sample_tree(__import__("random").Random(7), 4096)
+    img0 = fg.build()
+    fld = {}
+    for off, w, name in fg.fields:
+        fld.setdefault(name, []).append((off, w))
+
+    def patch(b, name, val):
+        for off, w in fld.get(name, []):
+            b[off:off + w] = (val & ((1 << (8 * w)) - 1)).to_bytes(w, "little")
+
+    xino = sorted(n for n in fld if re.fullmatch(r"ino\d+\.xattr", n))
+    fino = sorted(n for n in fld if re.fullmatch(r"ino\d+\.frag_index", n))
+    counts = {"x": 0, "f": 0, "i": 0}
+    if "xattr.tbl.ids" in fld and xino:
+        xat = fld["xattr.tbl.ids"][0][0] - 8
+        for count in (2 ** 28 + 1, 2 ** 29 + 1, 2 ** 31 + 1, 0xF0000001):
+            n, n32 = (count * 16 + 8191) // 8192, ((count * 16) % 2 ** 32 + 8191) // 8192
+            for idx in (512 * n32, 512 * n32 + 511, count - 1, 2 ** 28):
+                if idx >= count:
+                    continue
+                for sparse in (False, True):
+                    if sparse and (count > 2 ** 29 + 1 or idx not in (512 * n32, count - 1)):
+                        continue
+                    b = bytearray(img0)
+                    patch(b, "xattr.tbl.ids", count)
+                    for nm in xino:
+                        patch(b, nm, idx)
+                    if sparse:
+                        end = xat + 16 + 8 * n
+                        b = b[:xat + 24] + bytes(end - (xat + 24)) + bytes((-end) % 4096)
+                        patch(b, "super.bytes_used", end)
+                    out.append(("wd_xattr:%s" % ("sparse" if sparse else "compact"), bytes(b), ["xattr.tbl.ids=%#x" % count, "xattr index=%#x" % idx]))
+                    counts["x"] += 1
+    if "super.frag_count" in fld and fino:
+        for count in (2 ** 28 + 1, 2 ** 29 + 1, 0xF0000001):
+            for idx in (1, 2, count - 1):
+                b = bytearray(img0)
+                patch(b, "super.frag_count", count)
+                for nm in fino:
+                    patch(b, nm, idx)
+                out.append(("wd_frag:compact", bytes(b), ["super.frag_count=%#x" % count, "fragment index=%#x" % idx]))
+                counts["f"] += 1
+    for nm in sorted(n for n in fld if re.fullmatch(r"ino\d+\.sparse", n)):
+        base = nm.split(".")[0]
+        for cnt in (2 ** 32 + 1, 2 ** 30 + 1):
+            b = bytearray(img0)
+            patch(b, base + ".file_size", cnt * 4096)
+            patch(b, base + ".frag_index", 0xFFFFFFFF)
+            out.append(("wd_inode:compact", bytes(b), ["%s.file_size=%d*4096" % (base, cnt)]))
+            counts["i"] += 1
+    stats["width_images"] = counts
+    for k, floor in (("x", 8), ("f", 6), ("i", 2)):
+        if counts[k] < floor:
+            ctx.violation("sens:width-images:" + k, "generator self-test: the forge produced %d hostile-count images of class %r (floor %d): the fields they are built from are gone"
+                          % (counts[k], k, floor), {"kind": "self-test", "class": k}, found_input=False)
+    return out
+
+
 def tool_level(ctx, tools, api, harness, stats):
     rng = ctx.rng
     quick = ctx.quick()
@@ -1805,6 +1972,7 @@ def tool_level(ctx, tools, api, harness, stats):
         stats.setdefault("forge_compressors", []).append(COMP_NAMES[cid] + ("+meta" if cmeta else ""))
     tampered = codec_tamper_images(ctx, codec, comp_ids, stats)
     images += tampered
+    images += width_images(ctx, stats)
     codec.close()
     # inode mode fields whose file type bits contradict the inode type (set_mode must derive the type from the inode type:
     # a regular file presented as a symlink would have its block list printed as a C string, ...)
@@ -1867,6 +2035,10 @@ def tool_level(ctx, tools, api, harness, stats):
                 jobs = [j for j in jobs if j[0] in ("rdsquashfs -l", "rdsquashfs -d", "rdsquashfs -x", "rdsquashfs -s", "sqfs2tar", "api")]
             elif lab.startswith("ct_data"):
                 jobs = [j for j in jobs if j[0] in ("rdsquashfs -c", "rdsquashfs -c3", "rdsquashfs -u", "sqfs2tar", "sqfsdiff", "api")]
+            elif lab.startswith("wd_xattr"):
+                jobs = [j for j in jobs if j[0] in ("rdsquashfs -x", "rdsquashfs -x2", "rdsquashfs -uXCOT", "sqfs2tar", "api")]
+            elif lab.startswith(("wd_frag", "wd_inode")):
+                jobs = [j for j in jobs if j[0] in ("rdsquashfs -c", "rdsquashfs -u", "sqfs2tar", "sqfsdiff", "api")]
             if quick and idx >= nvalid and idx % 3 != 0:
                 # the option variants of unpack / sqfs2tar: every valid image, a third of the mutated ones
                 jobs = [j for j in jobs if j[0] not in ("rdsquashfs -uXCOT", "sqfs2tar -d", "sqfs2tar -dk", "sqfs2tar -r")]
@@ -1938,7 +2110,8 @@ def tool_level(ctx, tools, api, harness, stats):
 # ====================================================================== entry points
 def build_all(ctx):
     lib = ctx.build_lib("san")
-    harness = ctx.cc("h_c05", ["h_c05.c"], libs=[str(lib)] + vlib.CODEC_LIBS)
+    # the allocator of the harness and of the library objects linked into it goes through the recording wrapper of h_c05.c
+    harness = ctx.cc("h_c05", ["h_c05.c"], flags=["-Wl,--wrap=malloc,--wrap=calloc,--wrap=realloc,--wrap=free"], libs=[str(lib)] + vlib.CODEC_LIBS)
     api = ctx.cc("h_c05_api", ["h_c05_api.c"], libs=[str(lib)] + vlib.CODEC_LIBS)
     tools = {t: ctx.build_tool(t) for t in ("rdsquashfs", "sqfs2tar", "sqfsdiff", "gensquashfs")}
     return harness, api, tools
@@ -1992,7 +2165,7 @@ def run(ctx):
         "nesting_limit_of_tree": stats.get("nesting_limit_of_tree"), "known_walk_differences": stats["known_walk"],
         "tool_images": stats["tool_images"], "tool_images_valid": stats["tool_images_valid"], "tool_runs": stats["tool_runs"],
         "tool_outcomes": stats.get("tool_hist"), "known_tool_failures": stats["known_tool"],
-        "generator_self_test": stats.get("sens"), "decompressor_classes": stats.get("codec_classes"), "hostile_block_images": stats.get("codec_tamper_images"),
+        "generator_self_test": stats.get("sens"), "decompressor_classes": stats.get("codec_classes"), "hostile_block_images": stats.get("codec_tamper_images"), "hostile_count_images": stats.get("width_images"),
         "decompressor_calls": stats.get("codec_calls", 0), "decompressors": stats.get("codecs"), "decompressor_outcomes": stats.get("codec_hist"),
         "decompressor_roundtrips": stats.get("codec_roundtrips", 0), "forge_compressors": stats.get("forge_compressors"),
         "api_calls_executed": stats.get("api_calls", 0), "api_errors_returned": stats.get("api_errors_returned", 0),
